@@ -29,6 +29,16 @@ def compare_strict(x, y):
     return x == y and _json_number_type(x) is _json_number_type(y)
 
 
+def strict_equal(x, y):
+    """Deep equality of JSON-like values that also tells booleans,
+    integers and floats apart at every level."""
+    if isinstance(x, dict) and isinstance(y, dict):
+        return x.keys() == y.keys() and all(strict_equal(x[k], y[k]) for k in x)
+    if isinstance(x, (list, tuple)) and isinstance(y, (list, tuple)):
+        return len(x) == len(y) and all(strict_equal(a, b) for a, b in zip(x, y))
+    return compare_strict(x, y)
+
+
 def default_predicates():
     return defaultdict2(lambda: (compare_strict,), {})
 
